@@ -146,23 +146,24 @@ theorem forIn_pack {α σ τ ρ : Type} (pk : τ → σ) (step : τ → α → R
     | error e => rfl
     | ok t' => exact ih t'
 
+/-- the result of the source refines the result of the model: same exception, or related values -/
+def SimRes {σ τ : Type} (Rel : σ → τ → Prop) (sres : R σ) (mres : R τ) : Prop :=
+  match mres with
+  | .error e => sres = .error e
+  | .ok t' => ∃ s', sres = .ok s' ∧ Rel s' t'
+
 /-- simulation of two `foldlM`s; the relation carries a flag "at least one step done" -/
 theorem foldlM_sim {α σ τ : Type} (Rel : Bool → σ → τ → Prop) (P : α → Prop) (sstep : σ → α → R σ) (mstep : τ → α → R τ)
-    (hstep : ∀ x b s t, P x → Rel b s t →
-      match mstep t x with
-      | .error e => sstep s x = .error e
-      | .ok t' => ∃ s', sstep s x = .ok s' ∧ Rel true s' t')
+    (hstep : ∀ x b s t, P x → Rel b s t → SimRes (Rel true) (sstep s x) (mstep t x))
     (xs : List α) (b : Bool) (s : σ) (t : τ) (hP : ∀ x ∈ xs, P x) (h : Rel b s t) :
-    match xs.foldlM mstep t with
-    | .error e => xs.foldlM sstep s = .error e
-    | .ok t' => ∃ s', xs.foldlM sstep s = .ok s' ∧ Rel (b || !xs.isEmpty) s' t' := by
+    SimRes (Rel (b || !xs.isEmpty)) (xs.foldlM sstep s) (xs.foldlM mstep t) := by
   induction xs generalizing b s t with
   | nil => exact ⟨s, rfl, by simpa using h⟩
   | cons x xs ih =>
     have hb := hstep x b s t (hP x (by simp)) h
     rw [List.foldlM_cons, List.foldlM_cons]
     cases hm : mstep t x with
-    | error e => rw [hm] at hb; simp only at hb; rw [hb]; rfl
+    | error e => rw [hm] at hb; simp only [SimRes] at hb; rw [hb]; rfl
     | ok t' =>
       rw [hm] at hb
       obtain ⟨s', hs', hrel⟩ := hb
@@ -364,6 +365,225 @@ theorem new_group_none (heap_g : List PyRt.GData) (hs : List (Str × Bool)) :
   unfold Gen.Imp.ChrNamer_new_group
   rw [init_eq']; rfl
 
+/-! ### 4. `check_groups` -/
+
+theorem ok_bind {α β : Type} (a : α) (k : α → R β) : ((Except.ok a : R α) >>= k) = k a := rfl
+theorem error_bind {α β : Type} (e : Err) (k : α → R β) : ((Except.error e : R α) >>= k) = .error e := rfl
+
+theorem mapM_ok' {α β : Type} (g : α → β) (xs : List α) : xs.mapM (fun x => (Except.ok (g x) : R β)) = .ok (xs.map g) :=
+  mapM_ok _ g xs (fun _ => rfl)
+
+theorem pyGet_cons_zero {α : Type} (x : α) (xs : List α) : pyGet (x :: xs) 0 = .ok x := by
+  simp [pyGet]
+
+theorem pyGet_ok {α : Type} (l : List α) (i : Int) (h0 : 0 ≤ i) (h1 : i < l.length) : ∃ x, pyGet l i = .ok x ∧ x ∈ l := by
+  have hlt : i.toNat < l.length := by omega
+  refine ⟨l[i.toNat], ?_, List.getElem_mem hlt⟩
+  unfold pyGet
+  simp only
+  rw [if_neg (by omega), if_neg (by omega), List.getElem?_eq_getElem hlt]
+
+theorem mem_rangeUp (a b x : Int) : x ∈ PyRt.rangeUp a b ↔ a ≤ x ∧ x < b := by
+  simp only [PyRt.rangeUp, List.mem_map, List.mem_range, Int.ofNat_eq_natCast]
+  constructor
+  · rintro ⟨k, hk, rfl⟩; omega
+  · intro h; exact ⟨(x - a).toNat, by omega, by omega⟩
+
+/-- `max(len(hap_set) for hap_set in data.values())` -/
+def rowCount (d : PyRt.GData) : Int := ((d.map (·.2)).map (fun h => Int.ofNat h.length)).foldl max 0
+
+theorem foldl_max_ge (xs : List Int) (a : Int) : a ≤ xs.foldl max a ∧ ∀ x ∈ xs, x ≤ xs.foldl max a := by
+  induction xs generalizing a with
+  | nil => simp
+  | cons y ys ih =>
+    simp only [List.foldl_cons, List.mem_cons]
+    have := ih (max a y)
+    refine ⟨by omega, ?_⟩
+    rintro x (rfl | hx)
+    · omega
+    · exact this.2 x hx
+
+theorem foldl_max_mem (xs : List Int) (a : Int) : xs.foldl max a = a ∨ xs.foldl max a ∈ xs := by
+  induction xs generalizing a with
+  | nil => simp
+  | cons y ys ih =>
+    simp only [List.foldl_cons, List.mem_cons]
+    rcases ih (max a y) with h | h
+    · rw [h]; omega
+    · right; right; exact h
+
+theorem max_count_eq (d : PyRt.GData) (hne : d ≠ []) : Gen.Imp.ChrGroup_max_hap_set_count d = .ok (rowCount d) := by
+  unfold Gen.Imp.ChrGroup_max_hap_set_count rowCount
+  cases d with
+  | nil => exact absurd rfl hne
+  | cons kv d =>
+    simp only [List.map_cons, PyRt.maxList, ok_bind, List.foldl_cons]
+    first | rfl | (congr 2; omega)
+
+theorem rowCount_ge (d : PyRt.GData) (kv : Str × PyRt.HapSet) (h : kv ∈ d) : (kv.2.length : Int) ≤ rowCount d := by
+  unfold rowCount
+  apply (foldl_max_ge _ 0).2
+  simp only [List.map_map, List.mem_map, Function.comp_apply]
+  exact ⟨kv, h, rfl⟩
+
+theorem rowCount_pos (d : PyRt.GData) (h : NonVoid d) : 0 < rowCount d := by
+  obtain ⟨kv, hkv, hne⟩ := h
+  have := rowCount_ge d kv hkv
+  have : 0 < kv.2.length := List.length_pos_iff.mpr hne
+  omega
+
+/-- what the cell `(i, hap)` on row `row` of group `d` adds to the error flag of the table -/
+def cellMark (d : PyRt.GData) (row : Int) (ih : Int × Str) : Bool :=
+  match dGet? d ih.2 with
+  | some (c :: cs) => decide (row < Int.ofNat (c :: cs).length) && (decide (ih.1 = 0) && decide (row > 0))
+  | _ => decide (row = 0) && decide (ih.1 = 0)
+
+/-- the error flag one group contributes, as the source computes it -/
+def srcGroupErr (keys : List Str) (d : PyRt.GData) : Bool :=
+  (PyRt.rangeUp 0 (rowCount d)).any (fun row => (PyRt.enumerate keys).any (cellMark d row))
+
+/-- … and in closed form: the first haplotype has two or more original names, or none while another haplotype has one -/
+def srcGroupErr' (d : PyRt.GData) : Bool :=
+  match d with
+  | [] => false
+  | (_, F) :: _ => decide (F.length ≥ 2) || (F.isEmpty && decide (0 < rowCount d))
+
+theorem cellMark_ne_zero (d : PyRt.GData) (row i : Int) (hap : Str) (hi : i ≠ 0) : cellMark d row (i, hap) = false := by
+  unfold cellMark
+  split <;> simp [hi]
+
+theorem any_enumerateFrom_false (d : PyRt.GData) (row : Int) (ks : List Str) (k : Int) (hk : 1 ≤ k) :
+    (PyRt.enumerateFrom k ks).any (cellMark d row) = false := by
+  induction ks generalizing k with
+  | nil => rfl
+  | cons x xs ih =>
+    simp only [PyRt.enumerateFrom, List.any_cons, cellMark_ne_zero d row k x (by omega), Bool.false_or]
+    exact ih (k + 1) (by omega)
+
+theorem srcGroupErr_eq (keys : List Str) (d : PyRt.GData) (hk : d.map (·.1) = keys) : srcGroupErr keys d = srcGroupErr' d := by
+  cases d with
+  | nil => subst hk; simp [srcGroupErr, srcGroupErr', PyRt.enumerate, PyRt.enumerateFrom]
+  | cons kv rest =>
+    obtain ⟨k0, F⟩ := kv
+    subst hk
+    have hge : (F.length : Int) ≤ rowCount ((k0, F) :: rest) := rowCount_ge _ (k0, F) (by simp)
+    simp only [srcGroupErr, srcGroupErr', List.map_cons, PyRt.enumerate, PyRt.enumerateFrom, List.any_cons,
+      any_enumerateFrom_false _ _ _ (0 + 1) (by omega), Bool.or_false]
+    generalize rowCount ((k0, F) :: rest) = rc at hge ⊢
+    have hc : ∀ row, cellMark ((k0, F) :: rest) row (0, k0) =
+        match F with
+        | [] => decide (row = 0)
+        | c :: cs => decide (row < Int.ofNat (c :: cs).length) && decide (row > 0) := by
+      intro row
+      simp only [cellMark, dGet?, if_true]
+      cases F <;> simp
+    simp only [hc]
+    rw [Bool.eq_iff_iff]
+    simp only [List.any_eq_true, mem_rangeUp, Bool.or_eq_true, Bool.and_eq_true, decide_eq_true_eq]
+    cases F with
+    | nil =>
+      simp only [List.length_nil, List.isEmpty_nil, decide_eq_true_eq]
+      constructor
+      · rintro ⟨row, ⟨h0, h1⟩, h2⟩; right; exact ⟨trivial, by omega⟩
+      · rintro (h | ⟨_, h⟩)
+        · omega
+        · exact ⟨0, ⟨by omega, h⟩, rfl⟩
+    | cons c cs =>
+      simp only [List.length_cons, List.isEmpty_cons, Bool.false_eq_true, false_and, or_false, Bool.and_eq_true, decide_eq_true_eq]
+      simp only [List.length_cons] at hge
+      constructor
+      · rintro ⟨row, ⟨h0, h1⟩, h2, h3⟩
+        have : (Int.ofNat (cs.length + 1)) = (cs.length : Int) + 1 := by simp
+        omega
+      · intro h
+        refine ⟨1, ⟨by omega, by omega⟩, ?_, by omega⟩
+        have : (Int.ofNat (cs.length + 1)) = (cs.length : Int) + 1 := by simp
+        omega
+
+theorem groupsHaveErrors_cons (g : GroupData) (gs : List GroupData) :
+    groupsHaveErrors (g :: gs) =
+      ((match g with | [] => false | (_, firstSet) :: _ => firstSet.isEmpty || decide (firstSet.length ≥ 2)) || groupsHaveErrors gs) := by
+  simp only [groupsHaveErrors, List.any_cons]
+  cases g with
+  | nil => rfl
+  | cons kv g => rfl
+
+/-- on the groups the build loop makes (no group without a scaffold) the model's test is the source's -/
+theorem groupsHaveErrors_abs (ds : List PyRt.GData) (h : ∀ d ∈ ds, NonVoid d) :
+    groupsHaveErrors (ds.map absG) = ds.any srcGroupErr' := by
+  induction ds with
+  | nil => rfl
+  | cons d ds ih =>
+    rw [List.map_cons, groupsHaveErrors_cons, ih (fun d' hd' => h d' (by simp [hd'])), List.any_cons]
+    congr 1
+    have hp := rowCount_pos d (h d (by simp))
+    cases d with
+    | nil => rfl
+    | cons kv rest =>
+      obtain ⟨k0, F⟩ := kv
+      simp only [absG, List.map_cons, srcGroupErr', absHapSet_isEmpty, absHapSet_length, hp, decide_true, Bool.and_true]
+      exact Bool.or_comm _ _
+
+theorem any_congr_mem {α : Type} (f g : α → Bool) (xs : List α) (h : ∀ x ∈ xs, f x = g x) : xs.any f = xs.any g := by
+  induction xs with
+  | nil => rfl
+  | cons x xs ih => simp only [List.any_cons, h x (by simp), ih (fun y hy => h y (by simp [hy]))]
+
+theorem cell_lookup (hsd : PyRt.HapSet) (hl : ∀ e ∈ hsd, e.2 ≠ []) (row : Int) (h0 : 0 ≤ row) (h1 : row < Int.ofNat hsd.length) :
+    ∃ name x xs, pyGet (hsd.map (fun kv => kv.1)) row = .ok name ∧ PyRt.dictGet hsd name = .ok (x :: xs) := by
+  obtain ⟨name, hpy, hmem⟩ := pyGet_ok (hsd.map (fun kv => kv.1)) row h0 (by simpa using h1)
+  obtain ⟨v, hv, hvm⟩ := dGet?_of_key hsd name hmem
+  have := hl _ hvm
+  cases v with
+  | nil => exact absurd rfl this
+  | cons x xs => exact ⟨name, x, xs, hpy, by simp only [PyRt.dictGet, hv]⟩
+
+/-- the translated `check_groups`, exactly: no exception on well-formed groups; the flag is the OR over the groups of `srcGroupErr'` -/
+theorem check_groups_exact (heap_b : List Scaffold) (heap_g : List PyRt.GData) (hs : List (Str × Bool)) (refs : List Nat)
+    (hne : hs ≠ []) (hwf : ∀ r ∈ refs, CheckWf (hs.map (·.1)) (PyRt.gGet heap_g r)) :
+    Gen.Imp.ChrNamer_check_groups heap_b heap_g hs (some refs) = .ok (refs.any (fun r => srcGroupErr' (PyRt.gGet heap_g r))) := by
+  unfold Gen.Imp.ChrNamer_check_groups
+  simp only [forIn_unit _ _ (fun _ _ => rfl), ok_bind, PyRt.needIter]
+  rw [forIn_or (fun r => srcGroupErr (hs.map (·.1)) (PyRt.gGet heap_g r))]
+  · simp only [ok_bind, Bool.false_or]
+    congr 1
+    exact any_congr_mem _ _ _ (fun r hr => srcGroupErr_eq _ _ (hwf r hr).keys)
+  · intro grp hgrp tbl
+    have hw := hwf grp hgrp
+    have hdne : PyRt.gGet heap_g grp ≠ [] := by
+      intro h
+      have := hw.keys
+      rw [h] at this
+      cases hs with
+      | nil => exact hne rfl
+      | cons a t => simp at this
+    rw [max_count_eq _ hdne]
+    simp only [ok_bind]
+    rw [forIn_or (fun row => (PyRt.enumerate (hs.map (·.1))).any (cellMark (PyRt.gGet heap_g grp) row))]
+    · rfl
+    · intro row hrow tbl
+      rw [mem_rangeUp] at hrow
+      rw [forIn_or (cellMark (PyRt.gGet heap_g grp) row)]
+      · rfl
+      · rintro ⟨i, hap⟩ _ tbl
+        simp only [cellMark]
+        cases hg : dGet? (PyRt.gGet heap_g grp) hap with
+        | none =>
+          simp only [ok_bind]
+          by_cases hc : (decide (row = 0) && decide (i = 0)) = true <;> simp [hc, ok_bind]
+        | some hsd =>
+          cases hsd with
+          | nil =>
+            simp only [ok_bind]
+            by_cases hc : (decide (row = 0) && decide (i = 0)) = true <;> simp [hc, ok_bind]
+          | cons c_ cs_ =>
+            by_cases hlt : row < Int.ofNat (c_ :: cs_).length
+            · obtain ⟨name, x, xs, hpy, hdg⟩ := cell_lookup (c_ :: cs_) (hw.lists _ (dGet?_mem _ _ _ hg)) row hrow.1 hlt
+              simp only [hlt, decide_true, if_true, hpy, hdg, ok_bind, pyGet_cons_zero, ImpScaffold.scaffold_fragments_length_tie,
+                mapM_ok', ite_self, forIn_unit _ _ (fun _ _ => rfl), Bool.true_and]
+              by_cases hc : (decide (i = 0) && decide (row > 0)) = true <;> simp [hc, ok_bind]
+            · simp only [hlt, decide_false, Bool.false_eq_true, if_false, ok_bind, Bool.false_and, Bool.or_false]
+
 /-! ### 5. the build loop -/
 
 /-- the decision "start a new ChrGroup before adding this scaffold?", common to both sides.  `hdEmpty`: the current group has no scaffold
@@ -557,12 +777,10 @@ theorem hapKeys_getD (d : PyRt.GData) (h : KeysNonEmpty d) (k : Str) : HapKeysNo
 
 theorem step_sim (heap_b : List Scaffold) (keys : List Str) (heap0 : List PyRt.GData) (x : Str × Nat) (b : Bool) (s : SS) (st : GroupScan)
     (hx : x.1 ∈ keys) (h : Rel keys heap0 b s st) :
-    match mStep heap_b keys st x with
-    | .error e => srcStep heap_b keys s x = .error e
-    | .ok st' => ∃ s', srcStep heap_b keys s x = .ok s' ∧ Rel keys heap0 true s' st' := by
+    SimRes (Rel keys heap0 true) (srcStep heap_b keys s x) (mStep heap_b keys st x) := by
   obtain ⟨hap, sid⟩ := x
   simp only at hx
-  simp only [mStep, srcStep]
+  simp only [SimRes, mStep, srcStep]
   cases ho : (PyRt.bsGet heap_b sid).originalName with
   | none => rfl
   | some o =>
@@ -605,5 +823,241 @@ theorem step_sim (heap_b : List Scaffold) (keys : List Str) (heap0 : List PyRt.G
                 intro hv
                 simp only at hv
                 simp [hg, hv] at he
+
+theorem singleton_eq : ("Singleton".toList : Str) = sSingleton := by decide
+
+theorem check_painted_eq (hs : List (Str × Bool)) :
+    Gen.Imp.ChrNamer_check_for_painted_scaffolds_missing_haplotype_tag hs = .ok () := by
+  simp [Gen.Imp.ChrNamer_check_for_painted_scaffolds_missing_haplotype_tag]
+
+/-- closes a leaf of the case analysis of `build_groups_loop`: the decision is made, `add_scaffold_to_haplotype` remains -/
+local macro "bg_leaf" : tactic => `(tactic| (
+  simp only [ok_bind, gGet_last _ _ _ rfl, if_true, if_false, Bool.false_eq_true, ne_eq, not_true_eq_false, not_false_eq_true,
+    decide_true, decide_false, PyRt.needArg, PyRt.dictGet]
+  generalize PyRt.gdataAppend _ _ _ _ = ga
+  cases ga with
+  | error e => rfl
+  | ok cur' =>
+    simp only [ok_bind, gSet_last _ _ _ _ rfl]
+    try simp))
+
+/-- the translated `build_groups`: the loop is `foldlM srcStep`, then `check_groups` decides -/
+theorem build_groups_loop (heap_b : List Scaffold) (heap_g : List PyRt.GData) (hs : List (Str × Bool)) (entries : List (Str × Nat))
+    (hne : hs ≠ []) (hnd : (hs.map (·.1)).Nodup) :
+    Gen.Imp.ChrNamer_build_groups heap_b heap_g (some []) hs entries =
+      match entries.foldlM (srcStep heap_b (hs.map (·.1)))
+          { pre := heap_g, cur := srcNew (hs.map (·.1)), refs := [heap_g.length], lh := none, lo := none } with
+      | .error e => .error e
+      | .ok s =>
+        match Gen.Imp.ChrNamer_check_groups heap_b (s.pre ++ [s.cur]) hs (some s.refs) with
+        | .error e => .error e
+        | .ok t => if t = true then .error .chrNamer else .ok (s.pre ++ [s.cur], some s.refs) := by
+  unfold Gen.Imp.ChrNamer_build_groups
+  obtain ⟨k0, ks, hks⟩ : ∃ k0 ks, hs.map (·.1) = k0 :: ks := by
+    cases hs with
+    | nil => exact absurd rfl hne
+    | cons a t => exact ⟨_, _, rfl⟩
+  have hks' : List.map (fun kv => kv.1) hs = k0 :: ks := hks
+  simp only [check_painted_eq, ok_bind, hks', PyRt.unpackHead, new_group_eq _ _ _ hnd, List.nil_append]
+  erw [forIn_pack SS.pack (srcStep heap_b (k0 :: ks)) _ ?_ entries
+    { pre := heap_g, cur := srcNew (k0 :: ks), refs := [heap_g.length], lh := none, lo := none }]
+  · generalize List.foldlM (srcStep heap_b (k0 :: ks)) _ entries = res
+    cases res with
+    | error e => rfl
+    | ok s =>
+      simp only [SS.pack, ok_bind]
+      cases Gen.Imp.ChrNamer_check_groups heap_b (s.pre ++ [s.cur]) hs (some s.refs) <;> rfl
+  · intro x t
+    obtain ⟨hap, sid⟩ := x
+    simp only [SS.pack, srcStep]
+    cases ho : (PyRt.bsGet heap_b sid).originalName with
+    | none => rfl
+    | some o =>
+      cases o with
+      | nil => rfl
+      | cons c r =>
+        simp only [Gen.Imp.ChrGroup_haplotype_dict, Gen.Imp.ChrGroup_original_tags_of_haplotype_scaffold,
+          Gen.Imp.ChrGroup_add_scaffold_to_haplotype, gGet_last _ _ _ rfl, new_group_eq _ _ _ hnd, hks', ok_bind, singleton_eq,
+          needNew, List.isEmpty_cons, Bool.not_false, if_true, List.drop_succ_cons, List.drop_zero, ho]
+        cases hg : dGet? t.cur hap with
+        | none =>
+          simp only [Option.getD_none, List.isEmpty_nil, if_true, Bool.false_eq_true, if_false, ok_bind, gGet_last _ _ _ rfl]
+          cases PyRt.gdataAppend t.cur hap (some (c :: r)) sid with
+          | error e => rfl
+          | ok cur' => simp only [ok_bind, gSet_last _ _ _ _ rfl]
+        | some hsd =>
+          cases hsd with
+          | nil =>
+            simp only [Option.getD_some, List.isEmpty_nil, if_true, Bool.false_eq_true, if_false, ok_bind, gGet_last _ _ _ rfl,
+              Bool.not_true]
+            cases PyRt.gdataAppend t.cur hap (some (c :: r)) sid with
+            | error e => rfl
+            | ok cur' => simp only [ok_bind, gSet_last _ _ _ _ rfl]
+          | cons e0 es =>
+            simp only [Option.getD_some, List.isEmpty_cons, Bool.false_eq_true, if_false, Bool.not_false, if_true]
+            cases ks with
+            | nil =>
+              simp only [List.isEmpty_nil, Bool.not_true, Bool.false_eq_true, if_false]
+              by_cases h4 : t.lo = some (c :: r)
+              · simp only [h4]; bg_leaf
+              · have h4' : ¬ some (c :: r) = t.lo := fun h => h4 h.symm
+                simp only [ne_eq, h4']; bg_leaf
+            | cons k1 ks' =>
+              simp only [List.isEmpty_cons, Bool.not_false, if_true]
+              by_cases h3 : t.lh = some hap
+              · by_cases h4 : t.lo = some (c :: r)
+                · simp only [h3, h4]; bg_leaf
+                · have h4' : ¬ some (c :: r) = t.lo := fun h => h4 h.symm
+                  simp only [h3, h4', ne_eq, not_true_eq_false, not_false_eq_true, decide_true, decide_false, if_true, if_false,
+                    Bool.false_eq_true, PyRt.needArg, PyRt.dictGet, ok_bind]
+                  cases hl : dGet? (e0 :: es) t.lo with
+                  | none => rfl
+                  | some ids =>
+                    simp only [ok_bind]
+                    cases hp : pyGet ids 0 with
+                    | error e => rfl
+                    | ok first =>
+                      simp only [ok_bind]
+                      cases hc : ((PyRt.bsGet heap_b first).originalTags.getD []).contains sSingleton
+                      · bg_leaf
+                      · bg_leaf
+              · have h3' : ¬ some hap = t.lh := fun h => h3 h.symm
+                simp only [ne_eq, h3']; bg_leaf
+
+theorem rowCount_srcNew (keys : List Str) : rowCount (srcNew keys) = 0 := by
+  unfold rowCount srcNew
+  induction keys with
+  | nil => rfl
+  | cons k ks ih => simpa using ih
+
+theorem srcGroupErr'_srcNew (keys : List Str) : srcGroupErr' (srcNew keys) = false := by
+  cases keys with
+  | nil => rfl
+  | cons k ks =>
+    have h0 := rowCount_srcNew (k :: ks)
+    simp only [srcNew, List.map_cons] at h0 ⊢
+    simp only [srcGroupErr', h0]
+    decide
+
+/-! ### 6. the ties -/
+
+/-- `check_groups` on groups none of which is without a scaffold: the model's `groupsHaveErrors` -/
+theorem check_groups_tie (heap_b : List Scaffold) (heap_g : List PyRt.GData) (hs : List (Str × Bool)) (refs : List Nat)
+    (hne : hs ≠ [])
+    (hwf : ∀ r ∈ refs, CheckWf (hs.map (·.1)) (PyRt.gGet heap_g r))
+    (hnv : ∀ r ∈ refs, NonVoid (PyRt.gGet heap_g r)) :
+    Gen.Imp.ChrNamer_check_groups heap_b heap_g hs (some refs) = .ok (groupsHaveErrors (refs.map (absG ∘ PyRt.gGet heap_g))) := by
+  rw [check_groups_exact heap_b heap_g hs refs hne hwf]
+  have : refs.map (absG ∘ PyRt.gGet heap_g) = (refs.map (PyRt.gGet heap_g)).map absG := by simp
+  rw [this, groupsHaveErrors_abs, List.any_map]
+  · rfl
+  · intro d hd
+    simp only [List.mem_map] at hd
+    obtain ⟨r, hr, rfl⟩ := hd
+    exact hnv r hr
+
+theorem map_conG_absG (ds : List PyRt.GData) (h : ∀ d ∈ ds, KeysSome d) : (ds.map absG).map conG = ds := by
+  induction ds with
+  | nil => rfl
+  | cons d ds ih =>
+    simp only [List.map_cons]
+    rw [conG_absG d (h d (by simp)), ih (fun d' hd' => h d' (by simp [hd']))]
+
+/-- the whole kernel -/
+theorem build_groups_tie (heap_b : List Scaffold) (heap_g : List PyRt.GData) (hs : List (Str × Bool)) (entries : List (Str × Nat))
+    (hne : hs ≠ []) (hnd : (hs.map (·.1)).Nodup) (hent : entries ≠ []) (hkeys : ∀ e ∈ entries, e.1 ∈ hs.map (·.1)) :
+    Gen.Imp.ChrNamer_build_groups heap_b heap_g (some []) hs entries =
+      match buildGroups heap_b (hs.map (·.1)) entries with
+      | .error e => .error e
+      | .ok gs =>
+        if groupsHaveErrors gs = true then .error .chrNamer
+        else .ok (heap_g ++ gs.map conG, some (List.range' heap_g.length gs.length)) := by
+  rw [build_groups_loop heap_b heap_g hs entries hne hnd, buildGroups_eq]
+  have hrel0 : Rel (hs.map (·.1)) heap_g false
+      { pre := heap_g, cur := srcNew (hs.map (·.1)), refs := [heap_g.length], lh := none, lo := none }
+      { groups := [], cur := newGroup (hs.map (·.1)) } :=
+    ⟨rfl, rfl, (absG_srcNew _).symm, ⟨[], by simp, rfl, rfl, by simp⟩, gwf_srcNew _, by simp⟩
+  have hsim := foldlM_sim (Rel (hs.map (·.1)) heap_g) (fun e => e.1 ∈ hs.map (·.1)) (srcStep heap_b (hs.map (·.1)))
+    (mStep heap_b (hs.map (·.1))) (fun x b s t hx h => step_sim heap_b _ heap_g x b s t hx h) entries false _ _ hkeys hrel0
+  cases hm : entries.foldlM (mStep heap_b (hs.map (·.1))) { groups := [], cur := newGroup (hs.map (·.1)) } with
+  | error e => rw [hm] at hsim; simp only [SimRes] at hsim; rw [hsim]
+  | ok st' =>
+    rw [hm] at hsim
+    obtain ⟨s', hs', hrel⟩ := hsim
+    rw [hs']
+    simp only
+    have hb : (false || !entries.isEmpty) = true := by
+      cases entries with
+      | nil => exact absurd rfl hent
+      | cons _ _ => rfl
+    rw [hb] at hrel
+    obtain ⟨fin, hpre, hgroups, hrefs, hfin⟩ := hrel.fin
+    have hall : ∀ d ∈ fin ++ [s'.cur], GWf (hs.map (·.1)) d ∧ NonVoid d := by
+      intro d hd
+      simp only [List.mem_append, List.mem_singleton] at hd
+      rcases hd with hd | hd
+      · exact hfin d hd
+      · subst hd; exact ⟨hrel.wf, hrel.nv rfl⟩
+    have hheap : s'.pre ++ [s'.cur] = heap_g ++ (fin ++ [s'.cur]) := by rw [hpre, List.append_assoc]
+    have hmap : s'.refs.map (PyRt.gGet (s'.pre ++ [s'.cur])) = fin ++ [s'.cur] := by
+      rw [hheap, hrefs]
+      have := map_gGet_range' heap_g (fin ++ [s'.cur])
+      simpa using this
+    have hmem : ∀ r ∈ s'.refs, PyRt.gGet (s'.pre ++ [s'.cur]) r ∈ fin ++ [s'.cur] := by
+      intro r hr
+      rw [← hmap]
+      exact List.mem_map_of_mem hr
+    rw [check_groups_tie heap_b _ hs s'.refs hne (fun r hr => (hall _ (hmem r hr)).1.checkWf) (fun r hr => (hall _ (hmem r hr)).2)]
+    have hgs : st'.groups ++ [st'.cur] = (fin ++ [s'.cur]).map absG := by
+      rw [hgroups, hrel.cur]; simp
+    have hmap' : s'.refs.map (absG ∘ PyRt.gGet (s'.pre ++ [s'.cur])) = st'.groups ++ [st'.cur] := by
+      rw [hgs, ← hmap]; simp
+    rw [hmap']
+    simp only
+    rw [hgs, map_conG_absG _ (fun d hd => (hall d hd).1.names.keysSome), ← hheap, hrefs]
+    simp
+
+/-- the input on which the two sides DIFFER: no scaffold was added (`entries = []`) although `haplotypes_seen` is not empty.  The source
+    makes one empty ChrGroup and `check_groups` marks nothing (`max_hap_set_count() = 0`, no row is rendered): `build_groups` returns.  The
+    model's `groupsHaveErrors` flags the empty first haplotype: `ChrNamerError`.  Unreachable: `add_scaffold` fills both attributes at once. -/
+theorem build_groups_no_entries (heap_b : List Scaffold) (heap_g : List PyRt.GData) (hs : List (Str × Bool))
+    (hne : hs ≠ []) (hnd : (hs.map (·.1)).Nodup) :
+    Gen.Imp.ChrNamer_build_groups heap_b heap_g (some []) hs [] = .ok (heap_g ++ [srcNew (hs.map (·.1))], some [heap_g.length]) ∧
+    (buildGroups heap_b (hs.map (·.1)) [] >>= fun gs => if groupsHaveErrors gs = true then throw Err.chrNamer else pure gs)
+      = .error .chrNamer := by
+  constructor
+  · rw [build_groups_loop heap_b heap_g hs [] hne hnd]
+    simp only [List.foldlM_nil, pure, Except.pure]
+    rw [check_groups_exact heap_b _ hs [heap_g.length] hne]
+    · have hg : PyRt.gGet (heap_g ++ [srcNew (hs.map (·.1))]) heap_g.length = srcNew (hs.map (·.1)) := gGet_last _ _ _ rfl
+      simp only [List.any_cons, List.any_nil, Bool.or_false, hg]
+      have : srcGroupErr' (srcNew (hs.map (·.1))) = false := srcGroupErr'_srcNew _
+      rw [this]; rfl
+    · intro r hr
+      simp only [List.mem_singleton] at hr
+      subst hr
+      rw [gGet_last _ _ _ rfl]
+      exact (gwf_srcNew _).checkWf
+  · cases hs with
+    | nil => exact absurd rfl hne
+    | cons a t => rfl
+
+theorem conG_newGroup (keys : List Str) : conG (newGroup keys) = srcNew keys := by
+  simp [conG, newGroup, srcNew, conHapSet]
+
+/-- `for grp in self.groups` with `self.groups = None`: TypeError -/
+theorem check_groups_none (heap_b : List Scaffold) (heap_g : List PyRt.GData) (hs : List (Str × Bool)) :
+    Gen.Imp.ChrNamer_check_groups heap_b heap_g hs none = .error .type := by
+  unfold Gen.Imp.ChrNamer_check_groups
+  simp only [forIn_unit _ _ (fun _ _ => rfl), ok_bind, PyRt.needIter, error_bind]
+
+/-- the references `build_groups` leaves in `self.groups`, read through the arena and abstracted, are the model's groups -/
+theorem result_abs (heap_g : List PyRt.GData) (gs : List GroupData) :
+    (List.range' heap_g.length gs.length).map (absG ∘ PyRt.gGet (heap_g ++ gs.map conG)) = gs := by
+  have h := map_gGet_range' heap_g (gs.map conG)
+  rw [List.length_map] at h
+  rw [← List.map_map, h, List.map_map]
+  have : absG ∘ conG = id := by funext g; exact absG_conG g
+  rw [this, List.map_id]
 
 end AgpTpf.ImpBuildGroups
